@@ -15,7 +15,14 @@ def strip_annots(t):
 
 
 def read_item(item, mode="optimized"):
-    return strip_annots(type(item).as_micheline_expr()), item.to_micheline_value(mode=mode)
+    """(annotation-stripped type, Micheline value). A value pytezos itself cannot render is reported as a violation
+    of whatever property is being checked (the result is unusable), not as a harness error."""
+    from vlib.harness import Violation
+    try:
+        return strip_annots(type(item).as_micheline_expr()), item.to_micheline_value(mode=mode)
+    except Exception as e:
+        raise Violation("stack value of type %s cannot be rendered as %s Micheline: %r"
+                        % (getattr(type(item), "prim", "?"), mode, e), None, "render-raise:%s" % type(e).__name__)
 
 
 def new_context(**kw):
@@ -42,3 +49,14 @@ def run(code, stack=None, context=None):
 
 def push(type_expr, value_expr):
     return {"prim": "PUSH", "args": [type_expr, value_expr]}
+
+
+def parse_output(t, micheline, what="value"):
+    """Reference-parse Micheline produced by pytezos; a spelling Tezos would not accept is a violation."""
+    from vlib import ref_values as rv
+    from vlib.harness import Violation
+    try:
+        return rv.from_micheline(t, micheline)
+    except rv.Malformed as e:
+        raise Violation("%s rendered by pytezos is not a well-formed Tezos value of its type: %s (%s)"
+                        % (what, micheline, e), None, "malformed-output:" + t["prim"])
